@@ -92,6 +92,10 @@ def structures(tier):
         sts.append({'name': 'DBG_DYLD_TIMING_LAUNCH_EXECUTABLE', 'sc': 'launch', 'images': ks})
     for k in range(4 if tier == 'quick' else 12):
         sts.append({'name': 'BSC_getpid', 'sc': 'long', 'n': 40000 + 1013 * k, 'seed': k})
+    # a call whose END was lost, then exactly m records of the thread, then a complete call: m around every power of two
+    # (where a bounded per-thread backlog would overflow)
+    for e in range(8, 17 if tier == 'quick' else 18):
+        sts.append({'name': 'BSC_getpid', 'sc': 'backlog', 'ms': [2 ** e - 2, 2 ** e - 1, 2 ** e, 2 ** e + 1]})
     return sts
 
 
@@ -281,9 +285,44 @@ def run_long(ctx, st):
     ctx.reach()
 
 
+def run_backlog(ctx, st):
+    from pykdebugparser.kevent import Kevent
+    _, by_name = sweep.codes()
+    T = 0x101
+    for m in st['ms']:
+        p = _parser(ctx)
+        L = 'C07/backlog-boundary'
+        try:
+            i = 0
+            def ev(name, q, w):
+                eid = by_name[name]
+                return Kevent(i, b''.join(x.to_bytes(8, 'little') for x in w), tuple(w), T, eid | q, eid, q)
+            p.feed(ev('BSC_getppid', 1, (0, 0, 0, 0)))           # its END never arrives
+            for i in range(1, m + 1):
+                t = p.feed(ev(('BSC_sync', 'proc_exit', 'MACH_SCHED')[i % 3], 0, (i & 0xff, 2, 3, 4)))
+                if t is not None:
+                    str(t)
+            i = m + 1
+            p.feed(_mk(ctx, 'x%d' % m, 'BSC_read', 1, i)._replace(tid=T))
+            i = m + 2
+            t = p.feed(ev('BSC_read', 2, (0, 5, 0, 0)))
+            got = None if t is None else str(t)
+        except OutOfDomain:
+            ctx.reach('ood'); continue
+        except Exception as e:      # noqa
+            __import__('vxlib.symx.core', fromlist=['x']).proxy_rejected(e)
+            ctx.check(L, False, 'm=%d: %s: %s' % (m, type(e).__name__, _safe(e)))
+            continue
+        ctx.check(L, True)
+        ctx.check(L + '/complete-call-still-traced', got is not None, 'm=%d: the START..END pair after the backlog produced no trace' % m)
+    ctx.reach()
+
+
 def run(ctx, st):
     if st['sc'] == 'long':
         return run_long(ctx, st)
+    if st['sc'] == 'backlog':
+        return run_backlog(ctx, st)
     evs, _ = scenario_events(ctx, st)
     L = label_of(st)
     if st.get('pre'):
